@@ -126,7 +126,7 @@ fn extra_producers() -> impl Strategy<Value = GenLine> {
     let dur = (crate::c10::case_strategy()).prop_map(|c| GenLine { prelude: vec![], line: crate::c10::case_line(&c), lang: c.lang.clone(), tz: None, src: "C10".into() });
     let date = crate::c09::case_strategy().prop_map(|c| GenLine { prelude: vec![], line: crate::c09::case_line(&c), lang: c.lang.clone(), tz: None, src: "C09".into() });
     // times in Turkish too (the lexer is the same; Turkish prints the zone like English)
-    let time = (crate::c11::time_strategy(), prop::sample::select(vec!["en", "tr"]), prop::option::of(prop::sample::select(vec!["EST", "CET", "NPT", "GMT+3"]))).prop_map(|(t, lang, tz)| GenLine { prelude: vec![], line: Line::new(vec![t.tok()]), lang: lang.into(), tz: tz.map(|s| s.to_string()), src: "C11".into() });
+    let time = (crate::c11::time_strategy(), prop::sample::select(vec!["en", "tr"]), prop::option::of(prop::sample::select(vec!["EST", "CET", "NPT", "GMT+3", "est", "Cet", "gmt+3", "Gmt+5:30", "gmt-7", "GMT+11", "gmt1"]))).prop_map(|(t, lang, tz)| GenLine { prelude: vec![], line: Line::new(vec![t.tok()]), lang: lang.into(), tz: tz.map(|s| s.to_string()), src: "C11".into() });
     prop_oneof![3 => money, 3 => unit, 3 => number, 2 => percent, 3 => dur, 3 => date, 2 => time]
 }
 
